@@ -90,6 +90,9 @@ class SimHandle:
     def seekable(self):
         return True
 
+    def fileno(self):
+        return 10 ** 6 + id(self) % 10 ** 6  # never a real descriptor; only the stand-in os.fsync sees it
+
     def _chk(self):
         if self._closed:
             raise ValueError("I/O operation on closed file.")
@@ -308,12 +311,72 @@ class SimFS:
         return dict(self.files)
 
 
+class _SimOSPath:
+    """os.path for the I/O modules: existence questions are answered by the simulated disk."""
+
+    def __init__(self, fs, real):
+        self._fs, self._real = fs, real
+
+    def __getattr__(self, name):
+        return getattr(self._real, name)
+
+    def exists(self, p):
+        return norm_path(p) in self._fs.files
+
+    isfile = lexists = exists
+
+    def isdir(self, p):
+        return False
+
+    def getsize(self, p):
+        return len(self._fs.files[norm_path(p)])
+
+
+class SimOS:
+    """Stand-in for the ``os`` module inside the I/O modules, so that code which checks for, renames,
+    replaces or removes files (e.g. write-to-temp-then-os.replace) stays inside the simulated disk.
+    Everything else is delegated to the real module."""
+
+    def __init__(self, fs, real):
+        self._fs, self._real = fs, real
+        self.path = _SimOSPath(fs, real.path)
+
+    def __getattr__(self, name):
+        return getattr(self._real, name)
+
+    def replace(self, src, dst, **kw):
+        src, dst = norm_path(src), norm_path(dst)
+        self._fs._event(None, "rename", 0)
+        if src not in self._fs.files:
+            raise FileNotFoundError(errno.ENOENT, "No such file or directory", src)
+        self._fs.files[dst] = self._fs.files.pop(src)
+
+    rename = replace
+
+    def remove(self, p, **kw):
+        p = norm_path(p)
+        self._fs._event(None, "unlink", 0)
+        if p not in self._fs.files:
+            raise FileNotFoundError(errno.ENOENT, "No such file or directory", p)
+        del self._fs.files[p]
+
+    unlink = remove
+
+    def fsync(self, fd):
+        return None
+
+    def fspath(self, p):
+        return self._real.fspath(p)
+
+
 class Seams:
-    """Installs/restores the module-global ``open`` on the repo's I/O modules."""
+    """Installs/restores the module-global ``open`` (and an ``os`` stand-in where the module imports os)
+    on the repo's I/O modules."""
 
     def __init__(self, fs):
         self.fs = fs
         self.saved = []
+        self.saved_os = []
 
     def install(self):
         for name in IO_MODULES:
@@ -321,6 +384,10 @@ class Seams:
             had = "open" in m.__dict__
             self.saved.append((m, had, m.__dict__.get("open")))
             m.open = self.fs.open
+            real_os = m.__dict__.get("os")
+            if real_os is not None and not isinstance(real_os, SimOS):
+                self.saved_os.append((m, real_os))
+                m.os = SimOS(self.fs, real_os)
         return self
 
     def restore(self):
@@ -333,3 +400,6 @@ class Seams:
                 except AttributeError:
                     pass
         self.saved = []
+        for m, real_os in self.saved_os:
+            m.os = real_os
+        self.saved_os = []
